@@ -5,6 +5,9 @@ pub mod symspec {
     verus! {
     /// the text of a key of a generic type S: Borrow<str>
     pub uninterp spec fn key_text<S>(s: &S) -> Seq<char>;
+    /// the text of an owned String key is its character sequence (ASSUMED link between the generic key_text and String)
+    pub broadcast axiom fn axiom_key_text_string(s: &String)
+        ensures #[trigger] key_text(s) == s@;
     pub open spec fn texts<S>(s: Seq<S>) -> Seq<Seq<char>> { Seq::new(s.len(), |i: int| key_text(&s[i])) }
 
     /// texts() commutes with taking sub-ranges (used for `&hierarchy[1..]`, `split_last`, ...)
@@ -26,7 +29,7 @@ pub mod util {
     use crate::*;
     use crate::symspec::*;
     verus! {
-    broadcast use {crate::symspec::lemma_texts_subrange, crate::symspec::lemma_drop_first_is_subrange};
+    broadcast use {crate::symspec::lemma_texts_subrange, crate::symspec::lemma_drop_first_is_subrange, crate::symspec::axiom_key_text_string};
     /// R8 helper: stands for `MAP.get(KEY.borrow())` on a HashMap<String, ItemRef<T>> with a key of a type
     /// S: Borrow<str>.  ASSUMED contract: the result is the uninterpreted lookup `spec_lookup` of the key's
     /// text in the map (vstd cannot relate String keys to borrowed &str keys for a generic S).
@@ -40,6 +43,30 @@ pub mod util {
     pub assume_specification<T>[ <[T]>::split_last ](s: &[T]) -> (r: Option<(&T, &[T])>)
         ensures (match r { None => s@.len() == 0, Some((last, rest)) => s@.len() >= 1 && *last == s@[s@.len() - 1] && rest@ == s@.subrange(0, s@.len() - 1) });
 
+    /// R8b/R8c helpers for HashMap<String, ItemRef<T>> with owned String keys (same uninterpreted lookup model)
+    #[verifier::external_body]
+    pub fn verif_lookup_string<'a, T>(m: &'a std::collections::HashMap<String, util::ItemRef<T>>, key: &String) -> (r: Option<&'a util::ItemRef<T>>)
+        ensures (match r { Some(x) => spec_lookup(m, key@) == Some(*x), None => spec_lookup(m, key@) is None })
+    { unimplemented!() }
+    #[verifier::external_body]
+    pub fn verif_insert<T>(m: &mut std::collections::HashMap<String, util::ItemRef<T>>, key: String, value: util::ItemRef<T>)
+        ensures forall|k: Seq<char>| #[trigger] spec_lookup(final(m), k) == (if k == key@ { Some(value) } else { spec_lookup(old(m), k) })
+    { unimplemented!() }
+    /// R16b helper: stands for `SLICE.iter().cloned().collect::<Vec<_>>()` on a slice of Strings
+    #[verifier::external_body]
+    pub fn verif_clone_strings(s: &[String]) -> (r: Vec<String>)
+        ensures r@ == s@
+    { unimplemented!() }
+    /// an empty children map (HashMap::new) has no entries in the lookup model (ASSUMED)
+    #[verifier::external_body]
+    pub fn verif_new_children<T>() -> (r: std::collections::HashMap<String, util::ItemRef<T>>)
+        ensures forall|k: Seq<char>| (#[trigger] spec_lookup(&r, k)) is None
+    { unimplemented!() }
+
+    impl Clone for SymbolContext {
+        #[verifier::external_body]
+        fn clone(&self) -> (r: SymbolContext) ensures r == *self { unimplemented!() }
+    }
     impl<T> SymbolManager<T> {
         /// every stored reference points at an existing declaration
         pub open spec fn wf(&self) -> bool {
